@@ -624,6 +624,14 @@ def rule_format(fm, rep, rid='R1', scope='all'):
         okg = bool(some_edges)
         rep.ob('R2', 'section-%s/only-when-supplied' % role, okg, body.where(bb),
                'written only under self.%s == Some' % fld if okg else 'the %s section is written without testing self.%s for Some' % (role, fld))
+        # ... and that test is made on every path through format(): the section is not hidden behind some other condition
+        # (a metric-kind whitelist, a feature switch) that would drop a supplied value silently
+        if some_edges:
+            every = all(C.must_pass(body, 0, set(C.exits(body, False)), {sbi_}) for sbi_ in some_edges[:1]) if len(some_edges) == 1 else \
+                C.must_pass(body, 0, set(C.exits(body, False)), set(some_edges))
+            rep.ob('R2', 'section-%s/tested-on-every-path' % role, every, body.where(some_edges[0]),
+                   'every path through format() looks at self.%s' % fld if every else
+                   'a path through format() never looks at self.%s: a supplied %s can be dropped silently' % (fld, role))
         for sbi in some_edges:
             dt, edges = T.switch_facts(sbi)
             tgt = [s for s, labs in edges.items() if ('variant', 'Some') in labs]
@@ -661,6 +669,13 @@ def rule_format(fm, rep, rid='R1', scope='all'):
                         except L.Unknown:
                             pass
         rep.ob('R2', 'tags/prefix-only-when-nonempty', okg, body.where(bb), '"|#" is written iff the tag list is non-empty' if okg else '"|#" is not guarded by !tags.is_empty()')
+        if okg:
+            # the emptiness test itself is reached on every path through format() (no other condition hides the section)
+            tsw = [sbi for dt, labels, sbi in gs if self_field_name(norm(dt)[1] if norm(dt)[0] == 'discr' else (norm(dt)[2][0] if norm(dt)[0] == 'call' and norm(dt)[2] else norm(dt))) == fm.roles['tags']
+                   or any(self_field_name(y) == fm.roles['tags'] for y in walk(norm(dt)) if y[0] in ('field', 'load'))]
+            every = bool(tsw) and C.must_pass(body, 0, set(C.exits(body, False)), set(tsw))
+            rep.ob('R2', 'tags/tested-on-every-path', every, body.where(bb), 'every path through format() looks at the tag list' if every else
+                   'a path through format() never looks at the tag list: supplied tags can be dropped silently')
     if not tag_open:
         rep.bad('R2', 'tags/present', fm.format.where(), 'the formatter never writes the tags section')
     seps = [bb for bb, atoms in ev.events.items() if atoms == [('lit', ',')]]
